@@ -6,7 +6,7 @@ LEVEL = "proof"
 LEVEL_TEXT = ("the parts of this property a contract on one call can express are proved: vba.get_closing_brace returns the least index at which the parenthesis balance "
               "returns to zero, or -1 (loop invariant over the recursive specification function bal); find_createobject reports exactly [match start, balancing "
               "parenthesis) with the text covered as value; find_executable_name / find_library / find_path report match spans with the text covered as value and "
-              "the shipped type constant, and return exactly one node per match of their pattern (one-node-per-match: no match is filtered away); the languages of EXECUTABLE_RE, LIBRARY_RE and PATH_RE are pinned (pin/<CONSTANT>: equivalence of regular languages with the shape written in the contract). 'Is found at every offset, independent of neighbouring text' depends on the regex engine's search semantics and is a "
+              "the shipped type constant, and return exactly one node per match of their pattern (one-node-per-match: no match is filtered away); the languages of EXECUTABLE_RE, LIBRARY_RE, PATH_RE and CREATE_OBJECT_RE are pinned (pin/<CONSTANT>: equivalence of regular languages with the shape written in the contract). 'Is found at every offset, independent of neighbouring text' depends on the regex engine's search semantics and is a "
               "labelled bounded stand-in: each indicator kind is placed at offsets 0..3 between neutral delimiters, alone and next to unrelated indicators, and "
               "must be reported by the full scan with its exact absolute span, type and canonical value")
 LEVEL_NOTE = "regex contract (a match is a member of L(P°)); search semantics (leftmost / greedy) and the false-positive heuristics are outside the contracts; pefile is trusted"
